@@ -309,9 +309,9 @@ def run(ctx):
     for lay in (lays if not quick else rng.sample(lays, min(len(lays), 900))):
         for _ in range(1 if quick else 3):
             records.append(do_layout(rng, lay))
-    for _ in range(1500 if quick else 15000):
+    for _ in range(1500 if quick else 60000):
         records.append(do_random_frame(rng))
-    for _ in range(900 if quick else 9000):
+    for _ in range(900 if quick else 30000):
         records.append(do_random_other(rng))
     drift = sum(1 for x in records if x.get("drift"))
     if drift:
